@@ -1024,6 +1024,16 @@ def chain_walk(ctx, r):
             if isinstance(x, tuple) and x and x[0] == "if" and "free_list" in A.show(x[1]) and x[3] is not None:
                 wr = sorted({A.show(s[2][1]) for s in A.walk(x[2]) if isinstance(s, tuple) and s and s[0] == "assign" and s[2][0] == "index" and "entry_" in A.show(s[2][1])})
                 pu = sorted({A.show(s[1][1]) for s in A.walk(x[3]) if isinstance(s, tuple) and s and s[0] == "call" and s[1][0] == "member" and s[1][2] == "push" and "entry_" in A.show(s[1][1])})
+                # the link of a vacant slot is the free-list link: it must be read (popping the free list) before the slot's link is overwritten
+                stm = x[2][1]
+                pop_i = [i for i, s_ in enumerate(stm) if s_[0] == "assign" and A.show(s_[2]).endswith("free_list") and s_[3][0] == "index" and A.show(s_[3][1]).endswith("entry_nexts")]
+                for i in pop_i:
+                    slot = A.show(stm[i][3][2])
+                    over_i = [j for j, s_ in enumerate(stm) if s_[0] == "assign" and s_[2][0] == "index" and A.show(s_[2][1]).endswith("entry_nexts") and A.show(s_[2][2]) == slot]
+                    r.ob(all(i < j for j in over_i), f"map.abra:{f[1]}:free-list-link-read-after-overwrite", MAP, stm[i][-1],
+                         f"map.{f[1]}: `{A.show(stm[i][2])} = {A.show(stm[i][3])}` pops the free list by reading the vacant slot's link, but `entry_nexts[{slot}]` has already been overwritten with the bucket chain: the free list then points at a live entry, and the next insert overwrites a key that was never removed",
+                         sample=f"map.{f[1]}: free-list link of slot {slot} read before the slot is linked into its bucket")
+                r.ob(bool(pop_i), f"map.abra:{f[1]}:free-list-not-popped", MAP, x[-1], f"map.{f[1]}: reusing a free slot must advance free_list to that slot's link")
                 n_slot += 1
                 r.ob(wr == pu and len(wr) >= 5, f"map.abra:{f[1]}:slot-arrays-disagree", MAP, x[-1], f"map.{f[1]}: reusing a free slot writes {wr} while creating a slot pushes {pu}: every per-entry array must be written in both cases, or a reused slot keeps a stale key, value, hash, link or occupancy", sample=f"map.{f[1]}: reuse and create both write {len(wr)} per-entry arrays")
     r.count("collision-chain walks", n_walk, 3, MAP)
